@@ -345,8 +345,23 @@ def e_add_step(pkg, r):
         return None
     di, d = c
     t = r.choice([S(P("int32")), V(P("float32")), Opt(P("string")), S(P("string")), Opt(P("float64"))])
+    how = "inline"
+    if r.random() < 0.4:
+        # the same kinds of type behind a name: an alias, an alias of an alias, an instance of a generic alias
+        k = r.randrange(10**6)
+        how = r.choice(["alias", "alias-of-alias", "generic-alias"])
+        if how == "alias":
+            pkg.defs.append(Al("AddedAli%d" % k, r.choice([V(P("int16")), Opt(P("string")), M(P("string"), P("int32"))])))
+            t = N("AddedAli%d" % k)
+        elif how == "alias-of-alias":
+            pkg.defs.append(Al("AddedInner%d" % k, r.choice([V(P("float64")), Opt(P("int32"))])))
+            pkg.defs.append(Al("AddedOuter%d" % k, N("AddedInner%d" % k)))
+            t = N("AddedOuter%d" % k)
+        else:
+            pkg.defs.append(Al("AddedOptG%d" % k, Opt(TP("T")), ("T",)))
+            t = N("AddedOptG%d" % k, (P("int32"),))
     d.steps.insert(r.randint(0, len(d.steps)), ("addedStep%d" % r.randrange(10**6), t))
-    return dict(cls=COMPATIBLE, name="add-step(stream|vector|optional)", where=(d.name,))
+    return dict(cls=COMPATIBLE, name="add-step(stream|vector|optional)", where=(d.name,), how=how)
 
 
 def e_rename_with_alias(pkg, r):
@@ -536,7 +551,10 @@ def evo_base(key: str, rich: bool = True) -> Pkg:
     pkg.defs.insert(0, Rec("Plain", [("num", P("int32")), ("txt", P("string")), ("maybe", Opt(P("float64"))), ("choice", U(((None, P("int32")), (None, P("string")), (None, P("bool")))))]))
     pkg.defs.insert(1, En("Kind", [("ka", 0), ("kb", 1), ("kc", 2)], None, False, False))
     pkg.defs.insert(2, Rec("Gen", [("g", TP("T")), ("cnt", P("uint32"))], ("T",)))
-    proto = Proto("Main", [("head", N("Plain")), ("count", P("int64")), ("kind", N("Kind")), ("gen", N("Gen", (P("int32"),))),
+    # two instantiations of one generic; OnlyViaArg is reachable only through the type argument of the second one
+    pkg.defs.insert(3, Rec("OnlyViaArg", [("r", P("int32")), ("name", P("string")), ("w", Opt(P("float32")))]))
+    pkg.defs.insert(4, Rec("TwoGens", [("first", N("Gen", (P("float32"),))), ("second", N("Gen", (N("OnlyViaArg"),)))]))
+    proto = Proto("Main", [("head", N("Plain")), ("count", P("int64")), ("kind", N("Kind")), ("gen", N("Gen", (P("int32"),))), ("two", S(N("TwoGens"))),
                            ("opt", Opt(P("int32"))), ("items", S(N("Plain"))), ("nums", V(P("float32"))), ("tail", P("string"))])
     pkg.defs.append(proto)
     return pkg
